@@ -503,7 +503,7 @@ func c12MatVec(j *rt.Job, rng *rt.Rand, r *rt.Rec) {
 				for n := 0; n < 256; n++ {
 					if int64(out[i][n]) != want[i][n] {
 						r.Violate("C12/matrix-vector", fmt.Sprintf("A*v row %d coefficient %d is %d, schoolbook arithmetic gives %d (vector kind %d)", i, n, out[i][n], want[i][n], kind),
-							map[string]interface{}{"kind": "job", "job": j}, "", "")
+							jobCase(j), "", "")
 						return
 					}
 				}
